@@ -312,6 +312,9 @@ func (np *NetworkPolicy) selectorsMatch(ruleSelector, peerSelector *metav1.Label
 // IngressAllowedConn returns true  if the given connections from src to any of the pods captured by the policy is allowed
 func (np *NetworkPolicy) IngressAllowedConn(src Peer, protocol, port string, dst Peer) (bool, error) {
 	// iterate list of rules: []NetworkPolicyIngressRule
+	// (all the rules are examined even if the connection is allowed already: the rules come in no particular order,
+	// and an error of any rule is returned whatever the order of the rules)
+	allowed := false
 	for i := range np.Spec.Ingress {
 		rulePeers := np.Spec.Ingress[i].From
 		rulePorts := np.Spec.Ingress[i].Ports
@@ -328,14 +331,15 @@ func (np *NetworkPolicy) IngressAllowedConn(src Peer, protocol, port string, dst
 			return false, err
 		}
 		if connSelected {
-			return true, nil
+			allowed = true
 		}
 	}
-	return false, nil
+	return allowed, nil
 }
 
 // EgressAllowedConn returns true if the given connection to dst from any of the pods captured by the policy is allowed
 func (np *NetworkPolicy) EgressAllowedConn(dst Peer, protocol, port string) (bool, error) {
+	allowed := false // all the rules are examined, see IngressAllowedConn
 	for i := range np.Spec.Egress {
 		rulePeers := np.Spec.Egress[i].To
 		rulePorts := np.Spec.Egress[i].Ports
@@ -352,10 +356,10 @@ func (np *NetworkPolicy) EgressAllowedConn(dst Peer, protocol, port string) (boo
 			return false, err
 		}
 		if connSelected {
-			return true, nil
+			allowed = true
 		}
 	}
-	return false, nil
+	return allowed, nil
 }
 
 // GetEgressAllowedConns returns the set of allowed connections from any captured pod to the destination peer
